@@ -140,8 +140,9 @@ def pObj (s : Sexp) : Option Obj :=
         | _ => none
       -- PodFromCoreObject / addPodOwner: an owner of kind Node is ignored
       let (ok, on) := if ok == "Node" then ("", "") else (ok, on)
-      some (.pod { ns := ns, name := name, labels := l, ports := ← pCPorts cports, ownerKind := ok, ownerName := on,
-                   variant := if on == "" then "" else variantOf l, hostIP := hip })
+      let cps ← pCPorts cports
+      some (.pod { ns := ns, name := name, labels := l, ports := cps, ownerKind := ok, ownerName := on,
+                   variant := if on == "" then "" else variantOf l cps, hostIP := hip })
   | .list [.atom "np", .atom ns, .atom name, sel, types, ing, eg] => do
       some (.np ⟨ns, name, ← pSelNN sel, ← pDirs types, ← ing.args.mapM pNPRule, ← eg.args.mapM pNPRule⟩)
   | .list [.atom "np", .atom ns, .atom name, sel, types, ing, eg, .list [.atom "uid", _]] => do
